@@ -501,6 +501,10 @@ class SceneGraph:
         for attrib in self.transforms.node_data.values():
             if "geometry" in attrib and attrib["geometry"] in geometries:
                 attrib.pop("geometry")
+        # the edge that created the node also holds a reference
+        for attrib in self.transforms.edge_data.values():
+            if "geometry" in attrib and attrib["geometry"] in geometries:
+                attrib.pop("geometry")
 
         # it would be safer to just run _cache.clear
         # but the only property using the geometry should be
